@@ -6,7 +6,9 @@ use crate::gen::Rng;
 use crate::out::Shards;
 use serde_json::{json, Value};
 
-const NAMES: &[&str] = &["a", "b", "div", "p", "br", "img", "verylongtagname12", "svg", "path", "g", "x-y", "H1"];
+// (13-letter names: the tag-name hash holds 12 characters, and 13 when the first one is a-j)
+const NAMES: &[&str] = &["a", "b", "div", "p", "br", "img", "verylongtagname12", "svg", "path", "g", "x-y", "H1",
+    "foreignobject", "voreignobject", "kabcdefghijkl", "abcdefghijkl", "math", "mi"];
 const ATTR_NAMES: &[&str] = &["x", "y", "data-z", "id", "class"];
 const VALUES: &[&str] = &["", "p", "q", "p q", "P", "p-q", "pp", "qp", "p  q", "-p", "Pq", "x y z", "bar", "babar", "bbar", "aab", "aaab", "xAAAB", "ab", "abab", "a-b-c", " p", "q "];
 const IDENTS: &[&str] = &["p", "q", "P", "pp", "p-q"];
@@ -220,6 +222,41 @@ fn nth_family(rng: &mut Rng) -> (Vec<Value>, Vec<Value>, Vec<u8>, Vec<usize>) {
     (sels, tags, html, offs)
 }
 
+/// Foreign content: nested svg / math roots, self-closing elements, integration points, void-named elements in a
+/// foreign namespace, followed by position-dependent selectors.
+fn foreign_family(rng: &mut Rng) -> (Vec<Value>, Vec<Value>, Vec<u8>, Vec<usize>) {
+    let names: Vec<&str> = vec!["svg", "g", "path", "rect", "math", "mi", "mrow", "foreignobject", "desc", "input", "b", "div"];
+    let mut sels = Vec::new();
+    for _ in 0..(1 + rng.below(3)) {
+        let last = match rng.below(3) {
+            0 => json!([{"t":"type","n":b(*rng.pick(&names))}]),
+            1 => json!([{"t":"type","n":b(*rng.pick(&names))},{"t":"nth","oftype":rng.chance(1, 2),"a":0,"b":1 + rng.below(3) as i64}]),
+            _ => json!([{"t":"nth","oftype":false,"a":*rng.pick(&[0i64, 2]),"b":1 + rng.below(2) as i64}]),
+        };
+        let mut cx = vec![json!({"comb":"","comp":last})];
+        if rng.chance(2, 3) { cx.insert(0, json!({"comb":"","comp":[{"t":"type","n":b(*rng.pick(&["svg", "math", "g", "mi", "foreignobject", "div"]))}]})); cx[1]["comb"] = json!(*rng.pick(&[">", " "])); }
+        sels.push(json!([cx]));
+    }
+    let mut tags = Vec::new(); let mut html = Vec::new(); let mut offs = Vec::new();
+    let mut open: Vec<&str> = Vec::new();
+    for _ in 0..(4 + rng.below(9)) {
+        if open.len() < 5 && rng.chance(2, 3) {
+            let nm = if open.is_empty() || rng.chance(1, 4) { *rng.pick(&["svg", "math", "div"]) } else { *rng.pick(&names) };
+            let sc = rng.chance(1, 3) && !matches!(nm, "svg" | "math" | "div" | "b");
+            offs.push(html.len()); html.extend_from_slice(format!("<{nm}{}>", if sc { "/" } else { "" }).as_bytes());
+            tags.push(json!({"k":"st","n":b(nm),"attrs":[],"sc":sc,"ns":"html"}));
+            if !sc { open.push(nm); }
+        } else if !open.is_empty() {
+            let k = if rng.chance(2, 3) { open.len() - 1 } else { rng.below(open.len()) };
+            let nm = open[k];
+            if let Some(p) = open.iter().rposition(|&o| o == nm) { open.truncate(p); }
+            offs.push(html.len()); html.extend_from_slice(format!("</{nm}>").as_bytes());
+            tags.push(json!({"k":"et","n":b(nm)}));
+        }
+    }
+    (sels, tags, html, offs)
+}
+
 pub fn job_c04(out_dir: &str, tier: &str, seed: u64) {
     let quick = tier == "quick";
     let mut rng = Rng::new(seed ^ 0xC04);
@@ -228,10 +265,11 @@ pub fn job_c04(out_dir: &str, tier: &str, seed: u64) {
     let mut n = 0usize;
     let mut unparsable = 0usize;
     for case in 0..npairs {
-        let family = case % 4;
+        let family = case % 5;
         let (sels, mut tags, html, offs) = match family {
-            0 => attr_family(&mut rng, case / 4),
+            0 => attr_family(&mut rng, case / 5),
             1 => nth_family(&mut rng),
+            4 => foreign_family(&mut rng),
             _ => {
                 let nsel = 1 + rng.below(3);
                 let sels: Vec<Value> = (0..nsel).map(|_| gen_selector(&mut rng)).collect();
